@@ -1,6 +1,7 @@
 package main
 
 import (
+	"math"
 	"fmt"
 	"strings"
 	"sync"
@@ -170,6 +171,8 @@ func c19Jobs(tier string) []*SeqJob {
 	cachedAlpha := []string{"alloc counter a", "alloc gauge a", "alloc timer b", "alloc hist a", "alloc dhist b", "alloc uhist a",
 		"report h0 1", "report h0 -2", "report h1 1", "report h1 3", "report h2 5",
 		"vbucket h0 1", "vbucket h0 2", "vbucket h1 1", "vbucket h1 2", "dbucket h0 1", "dbucket h1 1",
+		// duration bounds that a float64 cannot carry: the upper bound of every duration histogram's last bucket, and 2^53+1 ns
+		"dbucket h0 max", "dbucket h1 big",
 		"samples b0 4", "samples b1 5", "samples b2 6", "flush"}
 	runCached := func(n int, hist []int) (cl, det, key string, steps int) {
 		var log, refLog []string
@@ -277,9 +280,16 @@ func c19Jobs(tier string) []*SeqJob {
 						nb.r = append(nb.r, r.(tally.CachedHistogram).ValueBucket(u-1, u))
 					}
 				} else {
-					nb.m = h.m.(tally.CachedHistogram).DurationBucket(0, time.Duration(u))
+					lo, hi := time.Duration(0), time.Duration(u)
+					switch c {
+					case "max":
+						lo, hi = time.Duration(1<<53+1), time.Duration(math.MaxInt64)
+					case "big":
+						lo, hi = time.Duration(math.MinInt64), time.Duration(1<<53+1)
+					}
+					nb.m = h.m.(tally.CachedHistogram).DurationBucket(lo, hi)
 					for _, r := range h.r {
-						nb.r = append(nb.r, r.(tally.CachedHistogram).DurationBucket(0, time.Duration(u)))
+						nb.r = append(nb.r, r.(tally.CachedHistogram).DurationBucket(lo, hi))
 					}
 				}
 				bs = append(bs, nb)
